@@ -123,6 +123,7 @@ func C07(ctx *core.Ctx, r *core.Report) {
 	c07NavigationExempt(ctx, r, regs)
 	c07NearMiss(ctx, r, regs)
 	c07NoWrites(ctx, r, regs)
+	c07Accumulate(ctx, r)
 }
 
 // errReplaced: the error is tested and, when non-nil, replaced by another
@@ -583,4 +584,125 @@ func c07NoWrites(ctx *core.Ctx, r *core.Report, regs map[*types.Named]types.Type
 // behaviour the property asks for is provided elsewhere.
 var c07NearMissExempt = map[string]string{
 	"node.CheckWhen.CheckListPostConstraints": "returns (bool, error) instead of (bool, bool, error) and is therefore never called; a list's `when` is nevertheless enforced, by CheckWhen.CheckContainerPostConstraints when the list node itself is selected (Selection.selekt), so no read or write observes the difference",
+}
+
+// c07Accumulate: registering a constraint never removes or replaces one that
+// is already registered. Parameters given in several rounds (Find with a query,
+// then Constrain; the defaults BuildConstraints always adds) must intersect, so
+// the registry only grows: every return of AddConstraint has appended the new
+// entry to the receiver's own entries, nothing stores into an element of an
+// existing entries slice, and a child set starts from all of its parent's entries.
+func c07Accumulate(ctx *core.Ctx, r *core.Report) {
+	add := ctx.Method("node", "Constraints", "AddConstraint")
+	nc := ctx.Fn("node", "NewConstraints")
+	cons := ctx.Named("node", "Constraints")
+	if add == nil || nc == nil || cons == nil {
+		r.Fatalf("anchors node.Constraints.AddConstraint / NewConstraints not found")
+		return
+	}
+	isEntries := func(v ssa.Value) bool {
+		fa, ok := v.(*ssa.FieldAddr)
+		if !ok {
+			return false
+		}
+		st, ok := core.Deref(fa.X.Type()).Underlying().(*types.Struct)
+		return ok && core.NamedOf(fa.X.Type()) == cons && st.Field(fa.Field).Name() == "entries"
+	}
+	loadOfEntries := func(v ssa.Value) bool {
+		u, ok := core.Strip(v).(*ssa.UnOp)
+		return ok && u.Op == token.MUL && isEntries(u.X)
+	}
+	// (a) AddConstraint: an appending store dominates every return
+	var appends []ssa.Instruction
+	core.Instrs(add, func(_ *ssa.BasicBlock, in ssa.Instruction) {
+		st, ok := in.(*ssa.Store)
+		if !ok || !isEntries(st.Addr) {
+			return
+		}
+		if c, ok := core.Strip(st.Val).(*ssa.Call); ok {
+			if b, ok := c.Common().Value.(*ssa.Builtin); ok && b.Name() == "append" && loadOfEntries(c.Common().Args[0]) {
+				appends = append(appends, st)
+			}
+		}
+	})
+	for i, ret := range core.Returns(add) {
+		ok := false
+		for _, a := range appends {
+			if instrDominates(a, ret) {
+				ok = true
+			}
+		}
+		r.Ob("constraints-accumulate", fmt.Sprintf("node.Constraints.AddConstraint/return#%d", i+1), ctx.Pos(ret.Pos()), ok,
+			"AddConstraint can return without having appended the new entry to the entries it already holds: a registration is lost or takes the place of an earlier one, so parameters given in two rounds (Find's query, then Constrain; the defaults BuildConstraints always adds) no longer intersect")
+	}
+	if len(core.Returns(add)) == 0 {
+		r.Fatalf("node.Constraints.AddConstraint has no return")
+	}
+	// (b) nobody overwrites an element of an existing entries slice
+	n := 0
+	for _, f := range ctx.RepoFuncs() {
+		if core.FnPkgPath(f) != core.Full("node") {
+			continue
+		}
+		core.Instrs(f, func(_ *ssa.BasicBlock, in ssa.Instruction) {
+			st, ok := in.(*ssa.Store)
+			if !ok {
+				return
+			}
+			ia, ok := st.Addr.(*ssa.IndexAddr)
+			if !ok || !loadOfEntries(ia.X) {
+				return
+			}
+			n++
+			// filling a slice this function has just made for a new Constraints is the copy of NewConstraints
+			fresh := false
+			if u, ok := core.Strip(ia.X).(*ssa.UnOp); ok {
+				if fa, ok := u.X.(*ssa.FieldAddr); ok {
+					if _, isAlloc := core.Strip(fa.X).(*ssa.Alloc); isAlloc && f == nc {
+						fresh = true
+					}
+				}
+			}
+			r.Ob("constraints-accumulate", core.FnName(f)+"/element-store", ctx.Pos(st.Pos()), fresh,
+				"an element of an existing set of registered constraints is overwritten: the constraint that was registered there is silently dropped")
+		})
+	}
+	r.Count("instances:constraints-accumulate(element stores examined)", n)
+	// (c) NewConstraints copies from parent.entries (not from the lazily built, possibly nil, compiled cache)
+	okCopy := false
+	core.Instrs(nc, func(_ *ssa.BasicBlock, in ssa.Instruction) {
+		if rg, ok := in.(*ssa.Range); ok && loadOfEntries(rg.X) {
+			okCopy = true
+		}
+		if c, ok := in.(*ssa.Call); ok {
+			if b, ok := c.Common().Value.(*ssa.Builtin); ok && (b.Name() == "copy" || b.Name() == "append") {
+				for _, a := range c.Common().Args[1:] {
+					if loadOfEntries(a) {
+						okCopy = true
+					}
+				}
+			}
+		}
+		// for i, e := range parent.entries compiles to len + index loads
+		if ia, ok := in.(*ssa.IndexAddr); ok && loadOfEntries(ia.X) {
+			if p, isParam := core.Strip(ia.X).(*ssa.UnOp).X.(*ssa.FieldAddr).X.(*ssa.Parameter); isParam && p == nc.Params[0] {
+				okCopy = true
+			}
+		}
+	})
+	// and not from another field of the parent
+	core.Instrs(nc, func(_ *ssa.BasicBlock, in ssa.Instruction) {
+		fa, ok := in.(*ssa.FieldAddr)
+		if !ok || core.NamedOf(fa.X.Type()) != cons {
+			return
+		}
+		if p, isParam := fa.X.(*ssa.Parameter); isParam && p == nc.Params[0] {
+			st := core.Deref(fa.X.Type()).Underlying().(*types.Struct)
+			if st.Field(fa.Field).Name() != "entries" {
+				okCopy = false
+			}
+		}
+	})
+	r.Ob("constraints-accumulate", "node.NewConstraints/copies-parent-entries", ctx.Pos(nc.Pos()), okCopy,
+		"the constraint set made for a child selection is not filled from the parent's registered entries (the compiled field is a lazily built cache and is nil until the first request): constraints registered on the parent — the type check of written values among them — are not inherited")
 }
